@@ -15,7 +15,10 @@ def run(chk, w):
                        "for the answer); initial values are commanded only through the public high-level setters, over all four configured lists; the configured lists are not "
                        "modified after parsing (so a second reset applies them again); both start functions reach the reset routine on the connection-established branch only. "
                        "'Exactly once' for concrete configurations is not decided.")
+    from .. import inline
     reset = P.functions.get("bidib_send_sys_reset")
+    if reset is not None:
+        reset = inline.expanded(P, reset.name)
     if reset is None:
         raise AnalysisBroken("bidib_send_sys_reset not found")
     GO = _enum(P, "BIDIB_CS_GO")
@@ -116,7 +119,7 @@ def run(chk, w):
     # ---- INIT
     chk.rule("C20-INIT", "initial values are commanded only through public high-level setters, iterating all configured lists")
     for ic in init_c:
-        g = P.functions[ic.callee]
+        g = inline.expanded(P, ic.callee)
         lists = set()
         for i in g.all_insts():
             if i.op == "load" and i["ptr"].get("k") == "global" and i["ptr"]["name"] == "bidib_initial_values":
@@ -137,7 +140,7 @@ def run(chk, w):
     # ---- INIT (cont.): whether an initial value is commanded must not depend on feedback state
     from .c02 import _cond_loads
     for ic in init_c:
-        g = P.functions[ic.callee]
+        g = inline.expanded(P, ic.callee)
         for c in g.calls():
             if not (c.callee in w.api and c.callee in P.functions and rules.call_reaches(P, c, set(S.constructors))):
                 continue
